@@ -188,6 +188,11 @@ class BloomDriver:
                     self.events.add("growth")
             elif alt:
                 hs = ctx.call(anyo, o.hashes, k)
+                if self.nops % 2 == 1 and len(self.pool) > 1:
+                    # a caller hashing a batch first and inserting afterwards: the list of ANOTHER key is computed (and kept alive)
+                    # between hashes(k) and add_alt: the earlier result is still the caller's and still k's
+                    self._held = ctx.call(anyo, o.hashes, self.pool[(op[1] + 1) % len(self.pool)])
+                    self.events.add("other_key_hashed_before_add_alt")
                 if self.nops % 2 == 0:
                     longer = ctx.call(anyo, o.hashes, k, len(hs) + 2)
                     if longer[: len(hs)] == hs:  # a list computed for a larger depth: only the leading number_hashes entries may matter
